@@ -481,6 +481,13 @@ def run(ctx, rep):
                     n_arms += 1
                     if rt.reachable(tgt, removed_blocks=selfcalls) & rets:
                         shallow.append(names[int(v)])
+        # `(c or d).x += 1` writes through c when it is present and through d otherwise: the root that matters is whichever of the two is const,
+        # so the `or` arm looks at constness (Ident::is_const) - "the primary's root, else the fallback's" hides a const fallback behind a variable
+        rbodies = [rt] + F.closures_of(rt)
+        asks = sum(1 for b in rbodies for c in b.calls() if c.matches(IS_CONST))
+        rep.ob("C10.guard", "root_ident: the `or` step answers with the root that is const, whichever side it is on", "ok" if asks else "violated",
+               "" if asks else "root_ident never asks Ident::is_const: with `maybe: Box? = nil` and `const LIMITS = Box(10)`, `(maybe or LIMITS).x += 5` is rooted at "
+               "`maybe` for the const test and writes LIMITS", rt.span, fn=rt.path, key="C10.guard|root-ident-or-const")
         if n_arms:
             rep.ob("C10.guard", "root_ident asks itself about the operand of every step (a path of any length is followed to its root)",
                    "violated" if shallow else "ok",
